@@ -180,7 +180,7 @@ func c12Compare(x *explore.Ctx, n ref.Node, input interface{}) {
 
 // ---- signatures ---------------------------------------------------------------
 
-var c12Types = []string{"n", "s", "b", "a", "o", "f", "j", "x", "(ns)", "(sb)", "a<n>", "a<s>"}
+var c12Types = []string{"n", "s", "b", "a", "o", "f", "j", "x", "(ns)", "(sb)", "(sa)", "(ao)", "a<n>", "a<s>"}
 
 type c12Arg struct {
 	src string
